@@ -1,9 +1,9 @@
 #!/venv/bin/python
-"""(re)generate renostat/reference_skeleton.json from /repo: alpha-normal form hash and ordered local names of every top-level function / method.
+"""(re)generate renostat/reference_skeleton.json from /repo: alpha-normal form hash, ordered local names, normal-form hash (normalform.py) and source of every top-level function / method.
 Run after every legitimate change of /repo (fix commits)."""
 import ast, json, os, sys, warnings
 sys.path.insert(0, "/verif")
-from renostat import alpha
+from renostat import alpha, normalform
 repo = sys.argv[1] if len(sys.argv) > 1 else "/repo"
 db = {}
 for dp, dn, fn in os.walk(os.path.join(repo, "renormalizer")):
@@ -24,7 +24,6 @@ for dp, dn, fn in os.walk(os.path.join(repo, "renormalizer")):
                 items += [(m, f"{n.name}.{m.name}") for m in n.body if isinstance(m, (ast.FunctionDef, ast.AsyncFunctionDef))]
             for node, qual in items:
                 h, names = alpha.skeleton(node)
-                if names:
-                    db.setdefault(f"{rel}::{qual}", {"alpha": h, "names": names})
+                db.setdefault(f"{rel}::{qual}", {"alpha": h, "names": names, "nf": normalform.nf_hash(node), "src": ast.unparse(node)})
 json.dump(db, open(alpha.DB, "w"), indent=0, sort_keys=True)
-print(len(db), "functions with locals recorded in", alpha.DB)
+print(len(db), "functions recorded in", alpha.DB)
